@@ -327,7 +327,11 @@ class Arbiter:
             del os.environ['GUNICORN_PID']
             # rename the pidfile
             if self.pidfile is not None:
-                self.pidfile.rename(self.cfg.pidfile)
+                try:
+                    self.pidfile.rename(self.cfg.pidfile)
+                except OSError as e:
+                    # a full disk is no reason to stop serving
+                    self.log.error("Could not rename the pid file: %s", e)
             # reset proctitle
             util._setproctitle("master [%s]" % self.proc_name)
 
@@ -509,7 +513,11 @@ class Arbiter:
                 # name belongs to the old master until it is gone
                 pidname += ".2"
             self.pidfile = Pidfile(pidname)
-            self.pidfile.create(self.pid)
+            try:
+                self.pidfile.create(self.pid)
+            except OSError as e:
+                # a full disk is no reason to stop serving
+                self.log.error("Could not write the pid file: %s", e)
 
         # set new proc_name
         util._setproctitle("master [%s]" % self.proc_name)
